@@ -23,7 +23,6 @@ def check(tier, seed, t0):
     runs = [("d2", ["a", "b", "c"], 2, "full"), ("fn4", ["a", "b"], 4, "fn"), ("data2", ["a", "b", "c"], 2, "data")]
     if thorough:
         runs.append(("d3", ["a", "b"], 3, "full"))
-        runs.append(("fn5", ["a", "b"], 5, "fn"))
         runs.append(("data3", ["a", "b"], 3, "data"))
     cases, states, trans, wall = [], 0, 0, 0.0
     for tag, vs, depth, alpha in runs:
